@@ -99,7 +99,7 @@ def spec_call(ex, name, e, env):
         h = ex.deref(ex.ev(e.args[0], env))
         i = to_int(lift(ex.ev(e.args[1], env)))
         j = to_int(lift(ex.ev(e.args[2], env)))
-        return CVal(z3.Select(h.re, i, j), z3.Select(h.im, i, j))
+        return ex.mat_select(h, i, j)
     if name == "re":
         return to_c(lift(ex.ev(e.args[0], env))).re
     if name == "im":
@@ -539,13 +539,13 @@ def module_call(ex, qual, e, env):
         re = z3.Lambda([i, j], z3.If(i == j, z3.RealVal(1), z3.RealVal(0)))
         im = z3.K(I, z3.K(I, z3.RealVal(0)))
         return ex.alloc(Mat(n, n, _arr2(ex, lambda i, j: z3.If(i == j, z3.RealVal(1), z3.RealVal(0))),
-                            _arr2(ex, lambda i, j: z3.RealVal(0))))
+                            _arr2(ex, lambda i, j: z3.RealVal(0)), base="identity"))
     if qual == "np.zeros":
         shp = A(0)
         if isinstance(shp, tuple) and len(shp) == 2:
             nr, nc = to_int(lift(shp[0])), to_int(lift(shp[1]))
             ex.require(z3.And(nr >= 0, nc >= 0), "safe.ValueError-negative-dimension", e)
-            return ex.alloc(Mat(nr, nc, _arr2(ex, lambda i, j: z3.RealVal(0)), _arr2(ex, lambda i, j: z3.RealVal(0))))
+            return ex.alloc(Mat(nr, nc, _arr2(ex, lambda i, j: z3.RealVal(0)), _arr2(ex, lambda i, j: z3.RealVal(0)), base="zeros"))
         raise Unsupported("np.zeros shape")
     if qual in ("np.cos", "np.sin", "math.cos", "math.sin"):
         a0 = A(0)
